@@ -4,11 +4,12 @@ safety = ["C07", "C14"]   # C14: "never touches memory outside its result"
 mode = "dfcc"
 enforce = "Sorter_convertAssignmentBack"
 timeout = 300
-function = "Transportation1dSorter::convertAssignmentBack, Transportation1dSolver::computeAssignment, flushPositions, Transportation1d::balanceDemand (transportation_1d.cpp)"
+function = "Transportation1dSolver::updateOptimalSink, Transportation1dSorter::convertAssignmentBack, Transportation1dSolver::computeAssignment, flushPositions, Transportation1d::balanceDemand (transportation_1d.cpp)"
 variants = [
   {name = "convertBack", enforce = "Sorter_convertAssignmentBack", defines = ["H_CONVERT"]},
   {name = "computeAssignment", enforce = "Solver_computeAssignment", defines = ["H_ASSIGN"]},
   {name = "flush", enforce = "Solver_flushPositions", defines = ["H_FLUSH"], replace = ["T1d_totalDemand"]},
+  {name = "optimalSink", enforce = "Solver_updateOptimalSink", defines = ["H_OPTSINK"], replace = ["Solver_cost"]},
   {name = "balance", enforce = "T1d_balanceDemand", defines = ["H_BALANCE"], replace = ["T1d_totalDemand", "T1d_totalSupply"], solver = "kissat"},
 ]
 assumptions = ["optimality of the plan (the sweep of Transportation1dSolver::run/push/pushOnce over a priority queue of events) is NOT decided: no per-function contract short of an LP-duality invariant, and a bounded stand-in does not fit (DESIGN.md section 1); solve() additionally runs the repo's own checkSolutionValid/checkSolutionOptimal, which are not under contract either (tuple vectors with running sums)",
@@ -148,6 +149,43 @@ __CPROVER_decreases(i + 1)
 @*/
 #endif
 
+#ifdef H_OPTSINK
+int nk, ns;
+/* cost(i, j) = |u[i] - v[j]| for the source at hand, as a ghost array over the sinks (cost() itself is a one-line accessor) */
+long long *g_cost;
+long long Solver_cost(const Solver *this, int i, int j)
+__CPROVER_requires(0 <= j && j < nk)
+__CPROVER_ensures(__CPROVER_return_value == g_cost[j])
+__CPROVER_assigns();
+#define cost(i, j) Solver_cost(this, i, j)
+void Solver_updateOptimalSink(Solver *this, int i)
+__CPROVER_requires(__CPROVER_is_fresh(this, sizeof(*this)) && 1 <= nk && nk <= NMAX && this->v_size == nk && __CPROVER_is_fresh(g_cost, nk * sizeof(long long)))
+__CPROVER_requires(0 <= this->optimalSink && this->optimalSink < nk)
+/* the optimal sink only moves right, stays in range, and is a strict local optimum to the right: the next sink is strictly farther
+ * (so among sinks at the same position the LAST one is chosen - the sweep relies on it to stay minimum-cost with duplicate positions) */
+__CPROVER_ensures(__CPROVER_old(this->optimalSink) <= this->optimalSink && this->optimalSink < nk)
+__CPROVER_ensures(this->optimalSink + 1 == nk || g_cost[this->optimalSink] < g_cost[this->optimalSink + 1])
+__CPROVER_assigns(this->optimalSink)
+/*@extract
+file = "src/place_global/transportation_1d.cpp"
+head = 'void Transportation1dSolver::updateOptimalSink\(int i\)'
+this_members = {file = "src/place_global/transportation_1d.hpp", class = "Transportation1dSolver"}
+nloops = 1
+rewrites = [['\bnbSinks\(\)', 'this->v_size', '1+']]
+[[loops]]
+ordinal = 1
+contract = '''
+__CPROVER_assigns(j)
+__CPROVER_loop_invariant(g_j0 <= j && j < nk)
+__CPROVER_decreases(nk - j)
+'''
+[[ghosts]]
+at = 'before:1'
+text = '''GHOST(const int g_j0 = j;)'''
+@*/
+#undef cost
+#endif
+
 #ifdef H_BALANCE
 long long g_supply, g_demand; int nk; long long g_oldd;
 long long T1d_totalDemand(const Solver *this)
@@ -200,6 +238,8 @@ void harness(void) {
   Solver_computeAssignment(sv);
 #elif defined(H_FLUSH)
   Solver_flushPositions(sv);
+#elif defined(H_OPTSINK)
+  Solver_updateOptimalSink(sv, k);
 #else
   T1d_balanceDemand(sv);
 #endif
